@@ -1217,7 +1217,8 @@ Proof.
   destruct (w_new_SI deflate cfg min max st0 N0) as (BS & S0 & B0 & G0). cbv zeta in S0, B0, G0.
   assert (Z0 : OI (cfg_defaults cfg) (set_limits st0 min max) [] [] /\
                w_objs (set_limits st0 min max) = tstats0 /\ w_idlen (set_limits st0 min max) = 0%nat).
-  { unfold w_new in N0. destruct (16777216 <=? c_block_size cfg); [discriminate|]. apply Ok_inj in N0. subst st0.
+  { unfold w_new in N0. destruct (16777216 <=? c_block_size cfg); [discriminate|].
+    destruct (block_too_small cfg) eqn:TS; [discriminate|]. apply Ok_inj in N0. subst st0.
     split; [|split; reflexivity]. unfold OI. cbn [set_limits set_bw upd w_obj sec_ids tag_ids flat_map app].
     destruct (c_skip_index_objects (cfg_defaults cfg)); reflexivity. }
   destruct Z0 as (O0 & J0 & K0).
